@@ -157,7 +157,16 @@ TInventory ==
           /\ Ev.blocked = 0 /\ Ev.stuck = 0
           /\ \A e \in EP : ~sendB[e] /\ ~recvB[e]
 
-Handled == {"reset", "netAtClose", "blockedAtClose", "closeCall", "closeQuit",
+\* a connection attempt abandoned during its handshake: the constructor
+\* returned soon after the cancellation (the client with an error; the server
+\* constructor may hand back a connection whose context is done, which the
+\* harness closes) and left nothing behind
+TAbortInventory ==
+    /\ Is("abortInventory") /\ Adv /\ KeepX /\ UNCHANGED vars
+    /\ Ev.stuck = 0 /\ Ev.retMs <= 2000
+    /\ Ev.leaked = 0
+
+Handled == {"reset", "abortInventory", "netAtClose", "blockedAtClose", "closeCall", "closeQuit",
             "fin", "sExit", "rExit", "closeDone", "closeRet", "sendRet",
             "recvRet", "postSend", "postRecv", "peerCheck", "inventory",
             "closeStuck"}   \* closeStuck: no action explains a Close call
@@ -171,7 +180,7 @@ TSkip == /\ l <= Len(Trace)
 TraceNext ==
     \/ TReset \/ TNet \/ TBlocked \/ TCloseCall \/ TCloseQuit \/ TFinTx
     \/ TFinRx \/ TSExit \/ TRExit \/ TCloseDone \/ TCloseRet \/ TSendRet
-    \/ TRecvRet \/ TPost \/ TPeerCheck \/ TInventory \/ TSkip
+    \/ TRecvRet \/ TPost \/ TPeerCheck \/ TInventory \/ TAbortInventory \/ TSkip
 
 TraceSpec == TraceInit /\ [][TraceNext]_tvars
 
